@@ -1,0 +1,32 @@
+//go:build verif
+
+package document
+
+// The two convenience wrappers of AddCellImage (C10): they pass the caller's bytes / path and the requested width on
+// unchanged, always with KeepAspectRatio; everything AddCellImage guarantees about the media part, the counter and the
+// other parts holds for them too. A failure changes nothing.
+
+//@ func (*Document).AddCellImageFromData
+//@ props C10
+//@ requires docParts(d) && mediaFresh(d)
+//@ ensures err != nil ==> result0 == nil && unchangedHeap()
+//@ ensures err == nil ==> fresh(result0) && result0.Data == data && knownFmt(result0.Format) && docParts(d)
+//@ ensures err == nil ==> d.nextImageID == old(d.nextImageID) + 1 && mediaFresh(d)
+//@ ensures err == nil ==> d.parts == old(d.parts) && !old(has(d.parts, imgPart(d.nextImageID, fmtExt(result0.Format)))) && has(d.parts, imgPart(old(d.nextImageID), fmtExt(result0.Format))) && d.parts[imgPart(old(d.nextImageID), fmtExt(result0.Format))] == data
+//@ ensures err == nil ==> forall k string :: k != imgPart(old(d.nextImageID), fmtExt(result0.Format)) ==> has(d.parts, k) == old(has(d.parts, k)) && d.parts[k] == old(d.parts[k])
+//@ ensures err == nil && widthMM > 0 ==> result0.Config != nil && result0.Config.Size != nil && result0.Config.Size.Width == widthMM && result0.Config.Size.Height == 0 && result0.Config.Size.KeepAspectRatio
+//@ ensures err == nil && !(widthMM > 0) ==> result0.Config != nil && result0.Config.Size == nil
+//@ ensures err == nil ==> table != nil && 0 <= row && row < len(table.Rows) && 0 <= col && col < len(table.Rows[row].Cells) && len(table.Rows[row].Cells[col].Paragraphs) == old(len(table.Rows[row].Cells[col].Paragraphs)) + 1
+//@ modifies Document.nextImageID, map:string:[]byte, Relationships.Relationships, []Relationship, Document.contentTypes, ContentTypes.Defaults, []Default, TableCell.Paragraphs, Paragraph.*
+
+//@ func (*Document).AddCellImageFromFile
+//@ props C10
+//@ requires docParts(d) && mediaFresh(d)
+//@ ensures err != nil ==> result0 == nil && unchangedHeap()
+//@ ensures err == nil ==> fresh(result0) && knownFmt(result0.Format) && docParts(d)
+//@ ensures err == nil ==> d.nextImageID == old(d.nextImageID) + 1 && mediaFresh(d)
+//@ ensures err == nil ==> d.parts == old(d.parts) && !old(has(d.parts, imgPart(d.nextImageID, fmtExt(result0.Format)))) && has(d.parts, imgPart(old(d.nextImageID), fmtExt(result0.Format))) && d.parts[imgPart(old(d.nextImageID), fmtExt(result0.Format))] == result0.Data
+//@ ensures err == nil ==> forall k string :: k != imgPart(old(d.nextImageID), fmtExt(result0.Format)) ==> has(d.parts, k) == old(has(d.parts, k)) && d.parts[k] == old(d.parts[k])
+//@ ensures err == nil && widthMM > 0 ==> result0.Config != nil && result0.Config.Size != nil && result0.Config.Size.Width == widthMM && result0.Config.Size.Height == 0 && result0.Config.Size.KeepAspectRatio
+//@ ensures err == nil ==> table != nil && 0 <= row && row < len(table.Rows) && 0 <= col && col < len(table.Rows[row].Cells) && len(table.Rows[row].Cells[col].Paragraphs) == old(len(table.Rows[row].Cells[col].Paragraphs)) + 1
+//@ modifies Document.nextImageID, map:string:[]byte, Relationships.Relationships, []Relationship, Document.contentTypes, ContentTypes.Defaults, []Default, TableCell.Paragraphs, Paragraph.*
